@@ -106,6 +106,9 @@ class SelectExtractor(BaseExtractor, SourceHandlerMixin):
                                     "bracketed"
                                 ):
                                     expressions = bracketed.get_children("expression")
+                                    if len(expressions) < 4:
+                                        # not the documented (staging, min, max, target) call
+                                        return
                                     holder.add_read(
                                         SqlFluffTable(
                                             escape_identifier_name(expressions[0].raw)
